@@ -265,7 +265,10 @@ class Oracle:
                     return "deleted key still has a primary copy %s on m%d" % (pc[:60], owner)
             else:
                 pv = pc.split("/")
-                if pc == "-" or pv[0] != ref[0] or int(pv[1]) != ref[1]:
+                expired = ref[1] != 0 and self.now // 1_000_000 >= ref[1]
+                if pc == "-" and expired:
+                    self.hit("expired_entry_evicted")       # the background scan (or a read) removed it, here and on the backups
+                elif pc == "-" or pv[0] != ref[0] or int(pv[1]) != ref[1]:
                     return "primary copy on m%d is %s, last acknowledged write (%s, ttl %d)" % (owner, pc[:80], ref[0][:60], ref[1])
             if int(self.cfg.get("r", 1)) > 1:
                 for b in baks:
@@ -316,6 +319,10 @@ class Gen:
             path = r.choice(PATHS)
             m = r.randrange(n)
             yield "c.own %s %s" % (dm, key)
+            if r.random() < 0.04:
+                # the background workers run at any moment: expired entries are removed by the eviction scan (on the owner and
+                # its backups), tables are compacted, empty fragments are dropped - no operation may notice
+                yield r.choice(["bg.evict", "bg.evict", "bg.compact", "bg.janitor"])
             w = r.random()
             if w < 0.35:
                 ver += 1
